@@ -122,6 +122,8 @@ func runC06(c *Ctx) {
 	}
 	prattParselets(c, m)
 	leftOperandPassthrough(c, m)
+	prefixOperatorShape(c, m)
+	parserStateSteering(c, m)
 	// outside the parselets an expression is always parsed from the lowest level (assignment): a
 	// statement that parses its condition from a higher level cannot hold `x = f()` un-parenthesised
 	{
@@ -1063,4 +1065,145 @@ func abbrev(s string, n int) string {
 		return s[:n] + "…"
 	}
 	return s
+}
+
+// prefixOperatorShape: a prefix operator applies to the operand that follows it, one operator per
+// parselet activation (a run `-!x` nests by recursion: the operand of `-` is the unary level, which
+// parses `!x`).
+func prefixOperatorShape(c *Ctx, m *prattModel) {
+	p := c.P
+	c.note("R8 prefix-operator-shape: the prefix parselet of ! - + ++ -- consumes exactly one operator token, outside any loop, then parses its operand once from the unary level, and returns exactly ExprUnary{Expr: that operand, OpToken: the consumed token (read before the operand is parsed), Postfix: false}. A parselet that collects a run of operators and wraps them afterwards applies them in the wrong order (-!x as !(-x)).")
+	seen := map[*ssa.Function]bool{}
+	n := 0
+	for _, tag := range []string{"Bang", "Minus", "Plus", "PlusPlus", "MinusMinus"} {
+		r := m.ByTag[tag]
+		if r == nil || r.Prefix == nil {
+			c.violated("R8", "prefix-operator "+tag, "", "no prefix parselet")
+			continue
+		}
+		f := r.Prefix
+		if seen[f] {
+			continue
+		}
+		seen[f] = true
+		n++
+		key := "prefix-shape " + shortName(f)
+		var adv, operand []*ssa.Call
+		for _, call := range callsIn(f) {
+			cv, ok := call.(*ssa.Call)
+			if !ok {
+				continue
+			}
+			if staticCalleeIs(cv, "(*lang.Parser).advance") || staticCalleeIs(cv, "(*lang.Parser).consume") || isConsumedTokenHelper(cv.Call.StaticCallee()) {
+				adv = append(adv, cv)
+			}
+			if cv.Call.StaticCallee() == m.Climb || staticCalleeIs(cv, "(*lang.Parser).expression") {
+				operand = append(operand, cv)
+			}
+		}
+		inLoop := func(in ssa.Instruction) bool { return reachableFrom(in.Block().Succs, nil)[in.Block()] }
+		if len(adv) != 1 || len(operand) != 1 || inLoop(adv[0]) || inLoop(operand[0]) {
+			c.violated("R8", key, p.Pos(f.Pos()), fmt.Sprintf("the prefix parselet consumes %d tokens and parses %d operands (or does so in a loop): one operator, one operand per activation is required", len(adv), len(operand)))
+			continue
+		}
+		opText := "*p.previous"
+		// the operator token is read between the consumption and the operand (or is the result of a
+		// consume-and-return helper that precedes the operand)
+		okRead := false
+		if isConsumedTokenHelper(adv[0].Call.StaticCallee()) {
+			opText = p.Render(adv[0]) + "#0"
+			okRead = dominatesInstr(adv[0], operand[0])
+		}
+		want := "&lang.ExprUnary{Expr: " + p.Render(operand[0]) + "#0, OpToken: " + opText + ", Postfix: false}"
+		var got []string
+		for _, rc := range p.successResults(f) {
+			got = append(got, rc.Value)
+		}
+		okShape := len(got) == 1 && got[0] == want
+		allInstrs(f, func(in ssa.Instruction) {
+			u, ok := in.(*ssa.UnOp)
+			if !ok || u.Op != token.MUL {
+				return
+			}
+			if p.Render(u) == "*p.previous" && dominatesInstr(adv[0], u) && dominatesInstr(u, operand[0]) {
+				okRead = true
+			}
+		})
+		c.check(okShape && okRead, "R8", key, p.Pos(f.Pos()), want, "the prefix parselet returns {"+strings.Join(got, " ; ")+"}; required: "+want+" with the operator token read after its consumption and before the operand is parsed")
+	}
+	if n == 0 {
+		c.undecided("R8", "prefix-shape", "", "no prefix operator parselet found")
+	}
+}
+
+// parserStateSteering: parsing an expression depends on the tokens ahead and the precedence handed
+// down, not on a memory of what was parsed before.
+var parserStateFields = map[string]string{
+	"lexer":           "the token source",
+	"current":         "the token cursor",
+	"previous":        "the token cursor",
+	"rules":           "the operator table",
+	"didEndStatement": "statement end already consumed (C13/R6)",
+	"inFunction":      "return only inside a function (C01/R2 scope agreement)",
+	"inLoop":          "break / continue only inside a loop (C01/R2 scope agreement)",
+}
+
+func parserStateSteering(c *Ctx, m *prattModel) {
+	p := c.P
+	c.note("R9 parser-state-steering: the only Parser fields that decide a branch anywhere in the parser are the token cursor (current, previous), the operator table (rules) and the three statement-context flags (didEndStatement, inFunction, inLoop — each covered by its own rule). A branch on any other Parser field (a nesting counter, a mode flag) makes the parse of an expression depend on what was parsed before it: `(a) + (b)` and `a + b` can then differ, which the grouping matrix cannot see.")
+	n := 0
+	for _, fn := range p.Funcs {
+		if !p.InLang(fn) || p.inTestFile(fn) {
+			continue
+		}
+		allInstrs(fn, func(in ssa.Instruction) {
+			ifi, ok := in.(*ssa.If)
+			if !ok {
+				return
+			}
+			// loads of Parser fields feeding the condition
+			var visit func(v ssa.Value, d int)
+			seen := map[ssa.Value]bool{}
+			visit = func(v ssa.Value, d int) {
+				if d > 6 || seen[v] {
+					return
+				}
+				seen[v] = true
+				switch x := v.(type) {
+				case *ssa.BinOp:
+					visit(x.X, d+1)
+					visit(x.Y, d+1)
+				case *ssa.UnOp:
+					if x.Op == token.MUL {
+						if sf, ok := fieldOfAddr(x.X); ok && sf.Struct != nil && sf.Struct.Obj().Name() == "Parser" {
+							n++
+							if _, known := parserStateFields[sf.Name]; !known {
+								c.violated("R9", "parser-state "+sf.Name+" in "+shortName(fn), p.InstrPos(ifi), "a branch of the parser depends on Parser."+sf.Name+", which is neither the token cursor, the operator table nor one of the statement-context flags: the parse depends on history")
+							}
+							return
+						}
+					}
+					visit(x.X, d+1)
+				case *ssa.Phi:
+					for _, e := range x.Edges {
+						visit(e, d+1)
+					}
+				case *ssa.Convert:
+					visit(x.X, d+1)
+				case *ssa.ChangeType:
+					visit(x.X, d+1)
+				case *ssa.FieldAddr:
+					visit(x.X, d+1)
+				case *ssa.Field:
+					visit(x.X, d+1)
+				}
+			}
+			visit(ifi.Cond, 0)
+		})
+	}
+	if n < 10 {
+		c.undecided("R9", "parser-state instance-floor", "", fmt.Sprintf("%d branches on Parser fields found, 20 expected", n))
+	} else {
+		c.ok("R9", "parser-state", "", fmt.Sprintf("%d branches read Parser fields, all from the allowed set", n))
+	}
 }
